@@ -52,8 +52,18 @@ def op_wh(t):
                       events_per_temporary_file=int(t.get('per_file', 10000000)))
             try:
                 if method == 'dict_wh':
-                    w2 = wh.dict_wh(path, fl(t['eta']), ct, ot, weights=w, remove_duplicates=POLICY[t['policy']],
-                                    make_data_array=bool(t.get('make_data_array', False)))
+                    # events_form: the path, or the events themselves as a list / a generator of (cues, outcomes);
+                    # make_data_array applies to the LAST piece only (dict_wh cannot continue from a DataArray)
+                    form = t.get('events_form', 'path')
+                    arg = path
+                    if form == 'list':
+                        arg = [(list(c), list(o)) for c, o in evs]
+                    elif form == 'generator':
+                        arg = ((list(c), list(o)) for c, o in evs)
+                    elif form != 'path':
+                        raise RuntimeError('bad events_form')
+                    w2 = wh.dict_wh(arg, fl(t['eta']), ct, ot, weights=w, remove_duplicates=POLICY[t['policy']],
+                                    make_data_array=bool(t.get('make_data_array', False)) and k == len(pieces) - 1)
                 elif flavour == 'r2b' and t.get('betas_direct'):
                     w2 = wh._wh_real_to_binary(path, (fl(t['beta1']), fl(t['beta2'])), fl(t['lambda']), ct,
                                                method=method, weights=w, **kw)
@@ -70,6 +80,7 @@ def op_wh(t):
         res = da_to_result(w) if isinstance(w, xr.DataArray) else dict_to_result(w)
         res['rows'], res['cols'] = res.pop('outcomes'), res.pop('cues')
         res['attrs'] = {k: str(v) for k, v in w.attrs.items()}
+        res['result_type'] = type(w).__name__
         res['inputs_unmodified'] = flags
         res['tables_unmodified'] = [snapshot(x) for x in (ct, ot)] == tabs_before
         res['leftovers'] = cd.leftovers()
